@@ -359,7 +359,7 @@ func TestVerifC26(t *testing.T) {
 	defer mredis.Close()
 
 	depth := vlib.Pick(r, 5, 7)
-	maxblocks := vlib.Pick(r, 4, 5)
+	maxblocks := vlib.Pick(r, 3, 4)
 
 	configs := []c26Config{
 		{name: "nocache", permcache: 0, tempcache: 0},
